@@ -12,6 +12,7 @@ import (
 // the bound is explored.
 func H_C31_exclusion() {
 	verifrt.EnableThreads(verifrt.Param("sched", 40, 60))
+	verifrt.PreemptionBound(verifrt.Param("preemptions", 0, 2)) // quick: 2 threads, unbounded; thorough: 3 threads, <= 2 preemptions
 	var m indexMutex
 	running := map[string]int{}
 	globals, others := 0, 0
